@@ -419,7 +419,8 @@ class C14(Check):
                     continue
                 gv = sphere.to_xyz(got.ra, got.dec)[0]
                 sep = float(sphere.separation_xyz(gv, refv))
-                bound = 1e-14 + float(from3d_bound(got.ra[:1], got.dec[:1])[0])
+                # plus the rounding of a plain (not pairwise) sum over m vectors: <= m * eps / 2 in the worst case
+                bound = 1e-14 + 6e-17 * m + float(from3d_bound(got.ra[:1], got.dec[:1])[0])
                 if sep > bound:
                     bad("mean:inaccurate", dict(m=m, kind=kind, weighted=w is not None, sep=sep,
                                                 bound=bound, got=got.data.tolist(), norm=float(norm)))
